@@ -31,7 +31,7 @@ RULE = ("48 policy combinations x seeds {0, 7, 123456, 2^31-1, random} x scenari
         "interleaved other bandits sharing the policy tuple objects (PYTHONHASHSEED=1 or random); plus the idle-bandit digest "
         "invariant after every call on the other bandits. Non-trivial = scenario of a randomised policy, or one sharing a "
         "policy-tuple object with an interleaved bandit; distinct = (combo, seed, labels, scenario skeleton)")
-BUDGET = {"quick": {"cases": 144, "shards": 16}, "thorough": {"cases": 48 * 12, "shards": 16, "wall_s": 2700}}
+BUDGET = {"quick": {"cases": 144, "shards": 16}, "thorough": {"cases": 48 * 12, "shards": 16, "wall_s": 3600}}
 MIN = {"quick": {"evaluations": 200, "nontrivial": 40, "counters": {"fresh_interpreters": 100, "idle_digest_checks": 500}},
        "thorough": {"evaluations": 1500, "nontrivial": 250, "counters": {"fresh_interpreters": 1000, "idle_digest_checks": 3000}}}
 ASSUMPTIONS = ["OMP/BLAS threads pinned to 1 (k-means reductions are not run-to-run deterministic otherwise)",
